@@ -502,6 +502,10 @@ struct Dom {
     /// `reconnect` after every op kind: before the first connection, after a failed `start`, right after `start`,
     /// after a `msg` (no `end`), twice in a row
     reconn: bool,
+    /// configuration-shape family (`cfg…`): 4-12 instruments on the connection (symbols that are prefixes of one
+    /// another: SYM1 / SYM10 / SYM11), half of them subscribed but silent, messages for never-subscribed symbols
+    /// that extend a subscribed one (SYM3 subscribed, SYM30 not)
+    cfg_many: bool,
 }
 
 const OFFSETS: [u64; 8] = [
@@ -673,12 +677,12 @@ fn garbage_side_dup(rng: &mut Rng, grid: &[String], dom: &Dom) -> Vec<String> {
 
 fn gen_random_case(out: &mut Out, rng: &mut Rng, thorough: bool, partial: bool, dom: &Dom) {
     let spot = rng.chance(50);
-    let n = *rng.pick(&[1usize, 1, 2, 3]);
+    let n = if dom.cfg_many { *rng.pick(&[4usize, 5, 7, 11, 11, 12]) } else { *rng.pick(&[1usize, 1, 2, 3]) };
     out.line(format!("init {} {n}", if spot { "spot" } else { "fut" }));
     let garbage = rng.chance(if dom.cont_garbage { 40 } else { 12 });
     let extras = rng.chance(40);
     // the venues' true histories: the same for every connection of the case
-    let venues: Vec<(Vec<Chg>, Vec<String>)> = (0..n).map(|_| gen_venue(rng, if thorough { 60 } else { 40 }, dom)).collect();
+    let venues: Vec<(Vec<Chg>, Vec<String>)> = (0..n).map(|_| gen_venue(rng, if dom.cfg_many { 12 } else if thorough { 60 } else { 40 }, dom)).collect();
     for (k, (v, _)) in venues.iter().enumerate() {
         out.line(venue_line(k, v));
     }
@@ -823,6 +827,9 @@ fn gen_connection(
         if dom.reconn && rng.chance(10) {
             d.clear(); // `start` directly followed by `end` / `reconnect`
         }
+        if dom.cfg_many && rng.chance(50) {
+            d.clear(); // subscribed, snapshot fetched, never an update on this connection
+        }
         deliveries.push(d);
     }
     shuffle(rng, &mut snaps);
@@ -841,10 +848,17 @@ fn gen_connection(
             break;
         }
         let k = *rng.pick(&open);
-        if rng.chance(3) {
+        if rng.chance(if dom.cfg_many { 12 } else { 3 }) {
             // a message for a symbol that was never subscribed
             let mut m = deliveries[k][idx[k]].clone();
-            m.sym = n + rng.below(2) as usize;
+            m.sym = if dom.cfg_many && rng.chance(70) {
+                // a never-subscribed symbol whose name extends the subscribed SYM<k>
+                let c = 10 * k + rng.below(10) as usize;
+                let c = if c < n { 100 * k + rng.below(10) as usize } else { c };
+                if c < n { n + rng.below(2) as usize } else { c }
+            } else {
+                n + rng.below(2) as usize
+            };
             out.line(m.line());
         }
         out.line(deliveries[k][idx[k]].line());
@@ -934,6 +948,7 @@ fn generate(seed: u64, n_cases: usize, tier: &str) {
             restyle: drng.chance(50),
             cont_garbage: drng.chance(40),
             reconn: drng.chance(40),
+            cfg_many: false,
         };
         let partial = drng.chance(25);
         gen_random_case(&mut out, &mut drng, thorough, partial, &dom);
@@ -941,6 +956,21 @@ fn generate(seed: u64, n_cases: usize, tier: &str) {
     if thorough {
         // the id triples of the small-scope enumeration once more across the 2^32 boundary (snapshot at 2^32 - 1)
         gen_exhaustive(&mut out, &mut id, 2, (1 << 32) - 6, "y");
+    }
+    // configuration-shape family (a fourth independent stream, ids cfg…; every case above is unchanged): 4-12
+    // instruments on one connection, half of them silent, prefix-sharing symbols, unsubscribed extensions
+    let mut crng = Rng::new(seed ^ 0xc0f1_6c06_0a11_5e7d);
+    for j in 0..(n_cases / 10).max(if n_cases > 0 { 12 } else { 0 }) {
+        id += 1;
+        out.case(format!("cfg{id}"));
+        let dom = Dom {
+            offset: OFFSETS[j % 3],
+            reconn: crng.chance(30),
+            cfg_many: true,
+            ..Dom::default()
+        };
+        let partial = crng.chance(25);
+        gen_random_case(&mut out, &mut crng, thorough, partial, &dom);
     }
     out.flush();
 }
